@@ -3,6 +3,8 @@
 package main
 
 import (
+	"os"
+	"path/filepath"
 	"bytes"
 	"crypto/ed25519"
 	"encoding/base64"
@@ -115,6 +117,51 @@ func init() {
 			panic(err)
 		}
 		if err := sshserver.VerifVerifyAuthorizedKeys(u, []byte(file), poolKey(atoi(a[2]))); err != nil {
+			return "reject"
+		}
+		return "accept"
+	}
+
+	// c09.callback <where: cache|dir|emptydir|missing> <specs|-> <finalNL 0/1> <offered index>
+	// The real PublicKeyCallback, which finds and reads the user's key file itself: the cached copy
+	// <cwd>/<CacheDir>/<user>.authorized_keys holds the generated lines (cache), is a directory (dir: it exists,
+	// reading it fails), or does not exist while the user has no home either (missing).
+	ops["c09.callback"] = func(a []string) string {
+		var lines []string
+		if a[1] != "-" {
+			for _, s := range strings.Split(a[1], ",") {
+				lines = append(lines, lineOf(s))
+			}
+		}
+		file := strings.Join(lines, "\n")
+		if a[2] == "1" && len(lines) > 0 {
+			file += "\n"
+		}
+		dir, err := os.MkdirTemp(os.Getenv("VERIF_WORK"), "c09cb-")
+		if err != nil {
+			panic(err)
+		}
+		defer os.RemoveAll(dir)
+		old, _ := os.Getwd()
+		if err := os.Chdir(dir); err != nil {
+			panic(err)
+		}
+		defer os.Chdir(old)
+		userName := "verifnosuchuser"
+		cache := filepath.Join(dir, config.Common.CacheDir)
+		os.MkdirAll(cache, 0o755)
+		keyFile := filepath.Join(cache, userName+".authorized_keys")
+		switch a[0] {
+		case "cache":
+			os.WriteFile(keyFile, []byte(file), 0o600)
+		case "dir":
+			os.MkdirAll(keyFile, 0o755)
+			os.WriteFile(filepath.Join(keyFile, "authorized_keys"), []byte(file), 0o600)
+		case "emptydir":
+			os.MkdirAll(keyFile, 0o755)
+		case "missing":
+		}
+		if _, err := sshserver.PublicKeyCallback(fakeConn{userName, strAddr("10.0.0.9:4242")}, poolKey(atoi(a[3]))); err != nil {
 			return "reject"
 		}
 		return "accept"
